@@ -19,7 +19,8 @@ import vf
 
 MUTANTS = ["response-is-request", "no-stream-events", "constant-name", "ignores-updates-only", "no-initial-value",
            "rejected-update-writes", "get-ignores-mask", "get-writes", "other-delete-ends-streams",
-           "late-timer-overwrites", "shared-event-filtered-in-place"]
+           "late-timer-overwrites", "shared-event-filtered-in-place",
+           "rejected-update-publishes", "equivalent-write-not-stored"]
 SOFT = "pull-initial-value-not-received-in-time"
 METHOD_RE = re.compile(r"^func \(\w+ \*?(\w+)\) (Get|Update|Pull)(\w*)\(", re.M)
 
@@ -76,6 +77,14 @@ def classify(ctx, listing):
     res["services_with_triple_without_server_in_tree"] = sorted(
         {t["service"] for t in listing["triples"]} - have - {"smartcore.traits.PressApi"})
     res["triples_in_descriptors"] = len(listing["triples"])
+    # models configured with an equivalence tolerance (Nudge steps move one float by 0.004 on every target that has one)
+    tol = []
+    for d, _, files in os.walk(os.path.join(vf.REPO, "pkg", "trait")):
+        for f in files:
+            if f.endswith(".go") and not f.endswith("_test.go") and "WithMessageEquivalence" in open(os.path.join(d, f), errors="replace").read():
+                pkg = os.path.relpath(d, os.path.join(vf.REPO, "pkg", "trait"))
+                tol.append({"pkg": pkg, "driven_by_a_target": any(t["pkg"] == pkg for t in targets)})
+    res["models_with_equivalence_tolerance"] = sorted(tol, key=lambda x: x["pkg"])
     return res
 
 
@@ -263,7 +272,7 @@ def run(ctx):
             d["sub_field_masked_gets"] = d.get("sub_field_masked_gets", 0) + bool(o["mask"]["nested"])
         elif o["op"] == "OpenPull":
             d["pulls_opened"] += 1
-        elif o["op"] in ("TimedUpdate", "Wait"):
+        elif o["op"] in ("TimedUpdate", "Wait", "Nudge"):
             d[o["op"]] = d.get(o["op"], 0) + 1
         elif o["op"] == "Other":
             d["other_record_deleted_or_created"] = d.get("other_record_deleted_or_created", 0) + 1
@@ -277,7 +286,7 @@ def run(ctx):
             d["masked_pulls"] = d.get("masked_pulls", 0) + 1
         if "between" in o["note"] and o["op"] == "Update":
             d["pulls_opened_between_commit_and_publication"] = d.get("pulls_opened_between_commit_and_publication", 0) + 1
-        nontrivial = (o["op"] in ("Update", "Other", "TimedUpdate", "Wait")) or (o["op"] == "OpenPull" and not o["mask"]["nil"]) or (o["op"] == "Get" and not o["mask"]["nil"]) or any(s["awaited"] for s in o["streams"])
+        nontrivial = (o["op"] in ("Update", "Other", "TimedUpdate", "Wait", "Nudge")) or (o["op"] == "OpenPull" and not o["mask"]["nil"]) or (o["op"] == "Get" and not o["mask"]["nil"]) or any(s["awaited"] for s in o["streams"])
         if nontrivial:
             ctx.distinct((o["tgt"], o["op"], o["code"], o["mask"], o["val"], changed, o["pre"]["v"] == o["post"]["v"],
                           [(s["uo"], s["fresh"], s["quiet"], s["opened"], len(s["msgs"]), s["mask"]) for s in o["streams"]]))
@@ -308,14 +317,14 @@ def run(ctx):
 MANIFEST = {
     "engine": "spec/Stack.tla + StackMC/StackGen/StackTrace.tla (TLC) + harness 'stackx'",
     "technique": "TLA+ relations between client observations of a register behind Wrap(router(Wrap(server))); TLC MC of a "
-                 "reference register with streams (relations hold, 11 seeded defects rejected); TLC-generated client histories "
+                 "reference register with streams (relations hold, 13 seeded defects rejected); TLC-generated client histories "
                  "replayed on every trait server found in the tree; TLC validates every recorded step",
     "text": "Stack.tla states what the property text demands of one client step given the unmasked Get before and after: "
             "a successful Update's response is the next Get; a masked Get is the projection of the unmasked one; a new Pull "
             "starts with the current value unless updates-only (an updates-only stream must not start with it); an Update whose "
             "response differs from the value before appears on every open stream with the response's value and the Pull "
             "request's name; a rejected (or crashing) Update leaves Get unchanged; a panic is never an answer. TLC checks these "
-            "relations on a reference machine whose server side is as free as the text leaves it and shows each of 11 seeded "
+            "relations on a reference machine whose server side is as free as the text leaves it and shows each of 13 seeded "
             "defects is rejected. TLC then prints random histories; stackx builds, per server of its registry (16 constructions "
             "of 14 server types in 13 packages, compared on every run with a scan of pkg/trait), the package's own "
             "WrapApi(NewApiRouter{2 names -> WrapApi(server)}) stack, drives it by full method name with requests built through "
